@@ -232,7 +232,8 @@ def run_job(job):
         os.mkdir(d)
         del _POOL[:]
         names = gen_names(rng, job["names"])
-        names = sorted(set(names) | set(rng.sample(["~", "~a", "a~", "-", "--", ".x", " x", "x ", "%", "_", "*", "?", "\\"], 4)))   # one-character and edge names
+        names = sorted(set(names) | set(rng.sample(["~", "~a", "a~", "-", "--", ".x", " x", "x ", "%", "_", "*", "?", "\\", "[2020] report.txt", "[a.zip] b", "[x] y",
+                                                        "(1) copy", "{k} v"], 5)))   # one-character and edge names
         # every third job spreads the names over two search roots (one of them searched depth-first): matching is per entry
         two = job.get("two_roots", False)
         _FROM[0] = rng.choice(["d, e", "e dfs, d", "d, e dfs"]) if two else "d"
